@@ -24,6 +24,7 @@ ReadEqualsWrite == ReadEqualsWriteOf(st)
 InOrder == InOrderOf(st)
 NoInterleave == NoInterleaveOf(st)
 NoDecodeFailure == NoDecodeFailureOf(st)
+NoReaderRefused == NoReaderRefusedOf(st)
 WindowIsSuffix == WindowIsSuffixOf(st)
 NoWindowWithoutTakeover == NoWindowWithoutTakeoverOf(st)
 StView == st
